@@ -5,3 +5,6 @@ import LicenseExpr.Props.C05
 #print axioms LE.C05_render_is_skeleton
 #print axioms LE.C05_template
 #print axioms LE.C05_readable_is_skeleton
+#print axioms LE.C05_text_simple
+#print axioms LE.C05_text_default
+#print axioms LE.C05_fixpoint
